@@ -12,7 +12,7 @@ import vlib
 
 VERIF = os.path.dirname(os.path.dirname(os.path.abspath(__file__)))
 TRANSLATORS = {"C08": "extract/io_extract.py → Gen/IoDecisions.lean",
-               "C09": "extract/sleep_extract.py → Gen/SleepDecisions.lean",
+               "C09": "extract/sleep_extract.py → Gen/SleepDecisions.lean; extract/poll_extract.py (idle polling never switched off)",
                "C19": "extract/ctx_extract.py → Gen/CtxAsm.lean; extract/create_extract.py (failed-init branch)",
                "C03": "extract/wake_extract.py (wake loops: no exit but the count, count untouched)",
                "C05": "extract/wake_extract.py", "C06": "extract/wake_extract.py", "C07": "extract/wake_extract.py", "C12": "extract/wake_extract.py",
